@@ -654,7 +654,11 @@ class Gen:
                     ek = ("stm", self.skey(), ek)      # the unpacked mapping leaves statements behind
                 final = ("dstar", ek, self.expr(vis, 1, setx_ok))
             else:
-                final = ("kv", self.expr(vis, 1, False, stm_p), self.expr(vis, 1, setx_ok, stm_p))
+                # the key may leave statements behind (depth 0 allows a ("stm", ..) wrapper)
+                # (a value that leaves statements would run them before the key's expression -- the compiler's general
+                # statement hoisting, not this property's subject -- so only the key gets one)
+                final = ("kv", self.expr(vis, 0 if r.random() < 0.6 else 1, False, stm_p),
+                         self.expr(vis, 1, setx_ok, stm_p))
         elif r.random() < 0.2:
             it = ("list", [self.expr(vis, 1, setx_ok) for _ in range(r.randint(0, 2))])
             if stm_p and r.random() < 0.6:
@@ -665,6 +669,11 @@ class Gen:
             ix = r.choice([n for n in OWN if n not in vis] or list(OWN))
             body = ("setx", r.choice(SETX), ("v", self.key(), ix)) if r.random() < 0.7 else ("v", self.key(), ix)
             final = ("val", ("ncomp", ix, r.randint(1, 2), body))
+            if body[0] == "setx" and r.random() < 0.5:
+                # the nested form itself needs statements (generator-function strategy), and the rest of the
+                # enclosing form reads what its setx assigned
+                inner = ("ncomp", ix, r.randint(1, 2), ("stm", self.skey(), body))
+                final = ("val", ("list", [inner, ("v", self.key(), body[1])]))
         else:
             final = ("val", self.expr(vis, 0, setx_ok, stm_p))
         return (scope, init, ("comp", kind, cl, final), kind == "gfor" and r.random() < 0.7)
